@@ -61,6 +61,11 @@ def build_pool(workdir):
     P["dist_in_str"] = {"00": 2, "01": 2, "10": 4}
     P["wf_num"] = Wavefunction(np.array([0.6, 0.8j, 0, 0]))
     P["wf_sym"] = Wavefunction(sympy.Matrix([a, 0.6]))
+    P["wf_symnum"] = Wavefunction(sympy.Matrix([a, 0.6, 0, 0]))        # sympy-backed, then made fully numeric by element assignment
+    P["wf_symnum"][0] = 0.8
+    import collections as _c
+    P["defmap"] = _c.defaultdict(float, {ga: -1.1})                     # partial maps of other Mapping kinds: theta is absent (a lookup must not insert it)
+    P["cntmap"] = _c.Counter({ga: 2})
     P["symmap"] = {th: 0.3, ga: -1.1}
     P["wfmap"] = {a: 0.8}
     P["counts"] = {"01": 2, "11": 1}
@@ -293,6 +298,13 @@ def menu():
         "wf.sample_many": lambda P: W.sample_from_wavefunction(P["wf_num"], 6, 5),
         "wf.ctor_list": lambda P: W.Wavefunction(P["amps_list"]),
         "wf.eq": lambda P: P["wf_num"] == P["wf_sym"],
+        "wf_symnum.probabilities": lambda P: P["wf_symnum"].get_probabilities(),
+        "wf_symnum.amplitudes": lambda P: np.array(P["wf_symnum"].amplitudes),
+        "wf_symnum.outcome_probs": lambda P: P["wf_symnum"].get_outcome_probs(),
+        "wf_symnum.flip": lambda P: W.flip_wavefunction(P["wf_symnum"]),
+        "circ.bind_defaultdict": lambda P: P["circ"].bind(P["defmap"]),
+        "gop.bind_counter": lambda P: P["gop"].bind(P["cntmap"]),
+        "gate.bind_defaultdict": lambda P: P["gate"].bind(P["defmap"]),
         "wf.free_symbols": lambda P: sorted(map(str, P["wf_sym"].free_symbols)),
     }
     return ops
@@ -317,6 +329,9 @@ def run_op(name, P):
 
 def diff_keys(a, b):
     return [k for k in a if a[k] != b.get(k)]
+
+
+_FRESH = {}
 
 
 def seq_case(case):
@@ -345,11 +360,15 @@ def seq_case(case):
                         "sig": "mutated:" + nm}
         if len(names) >= 2:
             # differential oracle: the last operation after the history vs on a fresh pool
-            wd2 = tempfile.mkdtemp(prefix="c20f.", dir=os.path.dirname(workdir))
-            try:
-                fresh = canon(run_op(names[-1], build_pool(wd2)))
-            finally:
-                shutil.rmtree(wd2, ignore_errors=True)
+            # (the result on fresh arguments is computed once per worker process and operation: it is a function of the operation alone - if hidden module state made it
+            # differ between two moments of one process, the comparison below reports exactly that)
+            if names[-1] not in _FRESH:
+                wd2 = tempfile.mkdtemp(prefix="c20f.", dir=os.path.dirname(workdir))
+                try:
+                    _FRESH[names[-1]] = canon(run_op(names[-1], build_pool(wd2)))
+                finally:
+                    shutil.rmtree(wd2, ignore_errors=True)
+            fresh = _FRESH[names[-1]]
             if results[-1] != fresh:
                 return {"ok": False, "msg": "result of %s after %s differs from its result on fresh arguments" % (names[-1], names[:-1]), "expected": jdump(fresh)[:400],
                         "observed": jdump(results[-1])[:400], "sig": "history:result:" + names[-1]}
